@@ -2,6 +2,11 @@
 //! usage: trh <ops-file>      (prints the event log, one `case <n>` block per case)
 mod world;
 mod mw_bulkhead;
+mod mw_chaos;
+mod mw_fallback;
+mod mw_budget;
+mod sched;
+mod mw_coalesce;
 mod mw_backoff;
 mod mw_reconnect;
 mod mw_hedge;
@@ -25,6 +30,10 @@ fn make(mw: &str, kv: &Kv) -> Option<Box<dyn Mw>> {
         "hedge" => Some(Box::new(mw_hedge::Adapter::new(kv))),
         "reconnect" => Some(Box::new(mw_reconnect::Adapter::new(kv))),
         "backoff" => Some(Box::new(mw_backoff::Adapter::new(kv))),
+        "coalesce" => Some(Box::new(mw_coalesce::Adapter::new(kv))),
+        "budget" => Some(Box::new(mw_budget::Adapter::new(kv))),
+        "fallback" => Some(Box::new(mw_fallback::Adapter::new(kv))),
+        "chaos" => Some(Box::new(mw_chaos::Adapter::new(kv))),
         _ => None,
     }
 }
